@@ -104,6 +104,8 @@ def programs(ctx: Ctx, cap1: bool) -> list[tuple[str, prog.Call]]:
             calls.append((f"step-emit-finish:{via}", prog.Call("produce", {**base, "steps": [[*ls, ["emit", 2, None], ["finish"]]]})))
             calls.append((f"step-raise:{via}", prog.Call("produce", {**base, "steps": [[E], [*ls, ["raise", "RuntimeError", "mid"]]]})))
             calls.append((f"first-step-raise:{via}", prog.Call("produce", {**base, "steps": [[*ls, ["raise", "RuntimeError", "first"]]]})))
+            # logs emitted AFTER the step's data batch (they must still arrive, before the next batch / the end)
+            calls.append((f"step-emit-then-log:{via}", prog.Call("produce", {**base, "steps": [[E, *ls], [E, *ls, ["finish"]]]})))
         calls.append(("init", prog.Call("produce", {"init": ls, "steps": [[E]]})))
         calls.append(("init-hdr", prog.Call("produce_h", {"hdr": 1, "init": ls, "steps": [[*ls, E]]})))
         calls.append(("init-raise", prog.Call("produce", {"init": [*ls, ["raise", "BoomError", "ib"]]})))
@@ -112,6 +114,8 @@ def programs(ctx: Ctx, cap1: bool) -> list[tuple[str, prog.Call]]:
             calls.append(("exch-step", prog.Call("exch", {"steps": [[*ls, X], [X], [*ls, X]]}, inputs=[[1], [2], [3]])))
             calls.append(("exch-init-hdr", prog.Call("exch_h", {"hdr": 2, "init": ls, "steps": [[*ls, X]]}, inputs=[[1]])))
             calls.append(("exch-step-raise", prog.Call("exch", {"steps": [[X], [*ls, ["raise", "ValueError", "xr"]]]}, inputs=[[1], [2]])))
+            calls.append(("exch-echo-then-log", prog.Call("exch", {"steps": [[X, *ls], [*ls, X, *ls]]}, inputs=[[1], [2]])))
+            calls.append(("exch-echo-then-log-hdr", prog.Call("exch_h", {"hdr": 3, "steps": [[X, *ls]]}, inputs=[[1]])))
     return calls
 
 
